@@ -17,6 +17,7 @@ ASSUMPTIONS = ["monitors read public accessors only", "remove_elements may drop 
                "behaviours accepted, the model is re-synchronised on the non-empty rankings)",
                "presence-rate comparison in float arithmetic, as documented"]
 SUMMARY_KEYS = ["histories", "ops", "invariant_evaluations", "mutations_shrinking_universe", "mutations_raising"]
+THOROUGH_SCALE = 3
 CRASH_IS_VIOLATION = False
 OPS = ["remove_subset", "remove_subset", "remove_nonmember", "remove_mixed", "remove_all", "rate", "rate", "remove_empty",
        "unified_rankings", "unified_dataset", "sub_elements", "sub_ids", "algorithm", "from_string"]
